@@ -359,3 +359,55 @@ def stop_marker_ends_loop(run, lc, rule="O1.6"):
         run.require(not bad and stops, rule, "stop-ends-handling:%s" % what,
                     "after the %s is dequeued the loop can still reach %s: messages accepted after stop() returned would be handled" % (what, ", ".join(bad) or "no on_stop"),
                     "the %s arm leads to on_stop and never back to the select! / a handler" % what, loc=lc.loc(a))
+
+
+# ---- delivery never panics on its own ---------------------------------------------------------
+
+DELIVERY_API = ("tell", "ask", "tell_with_timeout", "ask_with_timeout", "ask_join", "stop", "kill", "blocking_tell", "blocking_ask",
+                "tell_blocking", "ask_blocking")
+
+
+def delivery_never_panics(run, f, rule):
+    """A sender must get an error value, not a panic: no panic entry, Assert, unwrap/expect is reachable (crate-local callees
+    followed to depth 3) in the public delivery functions, their private primitives and the dead-letter recorder.
+    Only exception, under deadlock-detection: the deliberate deadlock panic of `ask` and the unwrap of the graph lock, both
+    governed by C12-O12.5 / C14 / C15."""
+    import anchors
+    import deadlock
+    roots = ["actor_ref::ActorRef::<T>::" + n for n in DELIVERY_API]
+    for r in anchors.blocking_roles(f).values():
+        roots += list(r.values())
+    rd = anchors.record_def(f)
+    if rd:
+        roots.append(rd)
+    det = deadlock.get(f) if "deadlock-detection" in f.features else None
+    allowed = set()
+    if det is not None and det.body is not None:
+        for p in det.panics:
+            allowed.add((det.body.name, loc_of(det.body, p)))
+        for blk in live_calls(det.body):
+            if fn_of(blk).get("name") == "unwrap" and blk.idx in (det.region | {det.acquire} if det.acquire is not None else det.region):
+                allowed.add((det.body.name, loc_of(det.body, blk)))
+        # the unwrap of `lock()` sits at the acquisition itself
+        tr = tracer_of(det.body)
+        for blk in live_calls(det.body):
+            if fn_of(blk).get("name") == "unwrap" and blk.term["args"]:
+                a = strip_wrappers(tr.norm(tr.call_args(blk.idx)[0]))
+                if a[0] == "call" and a[2].startswith("std::sync::Mutex") and a[2].endswith("::lock"):
+                    allowed.add((det.body.name, loc_of(det.body, blk)))
+    n = 0
+    for root in roots:
+        fam = f.family(root)
+        if not fam:
+            continue
+        bad = []
+        for b in fam:
+            n += 1
+            for site in deadlock.panic_sites_in(f, b, None, depth=3):
+                if site[2].startswith("assert Overflow"):
+                    continue        # debug-build arithmetic overflow checks: not a behaviour of the API
+                if (site[0], site[1]) not in allowed:
+                    bad.append((site[1], site[2][:60]))
+        run.require(not bad, rule, "never-panics:%s" % short_fn(root), "%s can panic instead of returning an error to its caller: %s" % (short_fn(root), bad[:3]),
+                    "no panic entry / Assert / unwrap / expect reachable in %s (%d bodies)" % (short_fn(root), len(fam)))
+    run.require(n >= 12, rule, "never-panics-floor", "only %d delivery bodies inspected" % n, "%d bodies inspected" % n)
